@@ -318,6 +318,89 @@ theorem reachable_read_fresh (pi : K) (i : GridInst K) (h : Reachable pi i) (p :
     (i.read pi p).1 = (i.obj.construct.read pi p).1 :=
   read_value_fresh pi i (reachable_coherent pi i h).2 p
 
+/-! ### 3b. the cached cell volumes are C12's cell volumes -/
+
+theorem zipWith_enum_n (pi : K) (g : Grid K) (k : Nat) (as : List (Axis K)) :
+    (((enumFrom k as).zipWith (fun (p : Nat × Axis K) s => (⟨p.2.n, g.volFactor pi p.1 p.2, s⟩ : AxisVol K))
+      (as.map fun _ => true)).map (·.n)) = as.map (·.n) := by
+  induction as generalizing k with
+  | nil => rfl
+  | cons a t ih => simp only [enumFrom, List.map_cons, List.zipWith_cons_cons, ih]
+
+theorem mkAxes_n (b : List (K × K)) (s : List Nat) (p : List Bool) (h1 : s.length = b.length)
+    (h2 : p.length = s.length) : (mkAxes b s p).map (·.n) = s := by
+  induction b generalizing s p with
+  | nil => cases s <;> simp_all [mkAxes]
+  | cons x bs ih =>
+    cases s with
+    | nil => simp at h1
+    | cons n ns =>
+      cases p with
+      | nil => simp at h2
+      | cons q ps =>
+        simp only [mkAxes, List.map_cons]
+        rw [ih ns ps (by simpa using h1) (by simpa using h2)]
+
+/-- one volume factor array per axis, as long as the axis has cells -/
+theorem axisVolsAll_shape (pi : K) (g : GridObj K) (hg : g.Valid) :
+    (g.toGrid.axisVolsAll pi).map (·.n) = g.shape := by
+  unfold Grid.axisVolsAll Grid.axisVols
+  rw [zipWith_enum_n]
+  cases g with
+  | unit s p => exact mkAxes_n _ _ _ (by simp [GridObj.axesBounds, GridObj.shape]) hg.2.2
+  | cartesian b s p => exact mkAxes_n _ _ _ hg.2.1 hg.2.2.1
+  | polar ri ro n => rfl
+  | spherical ri ro n => rfl
+  | cylindrical ri ro zl zh nr nz pz => rfl
+
+theorem prodL_volData (avs : List (AxisVol K)) (idx : List Nat)
+    (h : List.Forall₂ (fun (av : AxisVol K) i => i < av.n) avs idx) :
+    prodL (avs.map fun av => (List.range av.n).map av.vol) idx = prodAt avs idx := by
+  induction h with
+  | nil => rfl
+  | cons hi _ ih =>
+    simp only [List.map_cons, prodL, prodAt, List.headD_cons, List.tail_cons, ih]
+    congr 1
+    simp [List.getD_eq_getElem?_getD, hi]
+
+theorem multiIdx_mem (shape idx : List Nat) (h : idx ∈ multiIdx shape) :
+    List.Forall₂ (fun i n => i < n) idx shape := by
+  induction shape generalizing idx with
+  | nil => simp [multiIdx] at h; subst h; exact .nil
+  | cons n ns ih =>
+    simp only [multiIdx, List.mem_flatMap, List.mem_range, List.mem_map] at h
+    obtain ⟨i, hi, t, ht, rfl⟩ := h
+    exact .cons hi (ih t ht)
+
+/-- the freshly computed `cell_volumes` (outer product of `cell_volume_data`) is C12's `cellVolume` at
+every multi-index -/
+theorem cellVolumes_fresh_eq_C12 (pi : K) (g : GridObj K)
+    (hs : (g.toGrid.axisVolsAll pi).map (·.n) = g.shape) :
+    (g.construct.read pi .cellVolumes).1 = .arr ((multiIdx g.shape).map fun idx => g.toGrid.cellVolume pi idx) := by
+  have : (g.construct.read pi .cellVolumes).1 = .arr (cellVolsOf (g.volData pi) g.shape) := by
+    cases g <;> rfl
+  rw [this]
+  congr 1
+  apply List.map_congr_left
+  intro idx hidx
+  unfold GridObj.volData Grid.cellVolume
+  apply prodL_volData
+  have h2 := multiIdx_mem _ _ hidx
+  rw [← hs] at h2
+  rw [List.forall₂_map_right_iff] at h2
+  exact h2.flip
+
+/-- **the cached cell volumes of every restored instance are C12's cell volumes**: for every instance that
+can occur and every route, `cell_volumes` read on the restored instance (after any other reads) is
+`Grid.cellVolume` of `Model/Volume.lean` at every multi-index in C order - the quantity C12's theorems are
+about -/
+theorem restored_cellVolumes_C12 (pi : K) (i : GridInst K) (h : Reachable pi i) (r : Route) (j : GridInst K)
+    (hj : i.restore r = .ok j) (ps : List CProp) :
+    ((j.reads pi ps).read pi .cellVolumes).1 =
+      .arr ((multiIdx i.obj.shape).map fun idx => i.obj.toGrid.cellVolume pi idx) := by
+  rw [((restored_instance_fresh pi i h r).2 j hj).2.2.2.2.2.2 ps .cellVolumes]
+  exact cellVolumes_fresh_eq_C12 pi i.obj (axisVolsAll_shape pi i.obj (reachable_coherent pi i h).1)
+
 end
 
 /-! ### 4. concrete instances (exact rationals) -/
